@@ -10,7 +10,8 @@
    interleavings is proved per finite scenario (the scenario is in the statement; the schedule is universally
    quantified, its length unbounded in the statement and bounded by the scenario): hence `_partial`. *)
 From Coq Require Import List Bool Arith Lia.
-From SF Require Import Deploy.Model Deploy.Proofs Deploy.Inductive Deploy.Inductive2 Deploy.Inductive3 Deploy.Inductive4.
+From SF Require Import Deploy.Model Deploy.Proofs Deploy.Inductive Deploy.Inductive2 Deploy.Inductive3 Deploy.Inductive4
+  Deploy.Micro.
 Import ListNotations.
 
 (* --- return_after: a deploy request returns only after its connector's deploy() returned successfully ---
@@ -251,6 +252,66 @@ Proof.
 Qed.
 
 Print Assumptions C26_fuel_cut_refuted.
+
+(* --- MICRO-LEVEL executions (last round): no fuel, no [bad] ---
+   Deploy/Micro.v defines the micro-step relation [mstep] on (state, running task): resume a ready task / ONE
+   [micro] transition of the running task / yield; [mstar] is its reflexive-transitive closure.  An atomic
+   stretch may be arbitrarily long.  The fuelled executable [step] refines it whenever it is not cut
+   (C26_step_refines_micro), and so does [run] when no prefix is cut.  The unbounded results are restated on
+   micro-level executions, where no `bad = false` side condition is needed (this settles audit item C26-2: the
+   theorems about [run] above hold of every model execution, the ones below hold of every micro execution, and
+   the two coincide exactly on the executions that are not cut). *)
+Theorem C26_step_refines_micro : forall deps s tid,
+  bad (step false deps s tid) = false -> mstar deps (s, None) (step false deps s tid, None).
+Proof. exact step_refines. Qed.
+
+Theorem C26_run_refines_micro : forall deps sched s,
+  allgood deps s sched -> mstar deps (s, None) (run false deps s sched, None).
+Proof. exact run_refines. Qed.
+
+Theorem C26_deploy_only_micro : forall d reqs s c,
+  wrapper d = false -> lazy d = false -> fails d = [] -> deploy_only reqs ->
+  mstar [d] (init reqs, None) (s, c) -> ra_ok reqs (log s) = true /\ once_ok (log s) = true.
+Proof. exact micro_deploy_only. Qed.
+
+Theorem C26_deploy_undeploy_micro : forall d reqs s c,
+  wrapper d = false -> lazy d = false -> fails d = [] -> deploy_undeploy reqs ->
+  mstar [d] (init reqs, None) (s, c) -> ra_ok reqs (log s) = true /\ once_ok (log s) = true.
+Proof.
+  intros d reqs s c H1 H2 H3 H Hm. split.
+  - exact (micro_return_after_deploy_undeploy d reqs s c H1 H2 H3 H Hm).
+  - exact (micro_once_deploy_undeploy d reqs s c H1 H2 H3 H Hm).
+Qed.
+
+Theorem C26_lazy_micro : forall d reqs s c,
+  wrapper d = false -> lazy d = true -> Forall (Forall okopx) reqs ->
+  mstar [d] (init reqs, None) (s, c) ->
+  length (conns_of 0 (log s)) <= 1 /\ lz_ok reqs (log s) = true.
+Proof. exact micro_lazy. Qed.
+
+Theorem C26_lazy_fail_wakes_micro : forall d reqs s c j t e x,
+  wrapper d = false -> lazy d = true -> Forall (Forall okopx) reqs ->
+  mstar [d] (init reqs, None) (s, c) ->
+  has is_DEf (log s) = true -> nth_error (tasks s) j = Some t -> tw t = WEvent e -> futs s = [x] ->
+  e <> f_event x.
+Proof. exact micro_lazy_fail_wakes. Qed.
+
+(* the 700-deploy request that the fuelled model cuts is covered here: every micro-reachable state of it
+   satisfies the clauses (instance of C26_deploy_only_micro) *)
+Example C26_micro_covers_cut_request : forall s c,
+  mstar [mkD false None false [] 0 0] (init [repeat (ODeploy 0) 700], None) (s, c) ->
+  ra_ok [repeat (ODeploy 0) 700] (log s) = true /\ once_ok (log s) = true.
+Proof.
+  intros s c H. apply (C26_deploy_only_micro (mkD false None false [] 0 0) _ s c); auto.
+  constructor; [|constructor]. apply Forall_forall. intros o Ho. apply repeat_spec in Ho. exact Ho.
+Qed.
+
+Print Assumptions C26_step_refines_micro.
+Print Assumptions C26_run_refines_micro.
+Print Assumptions C26_deploy_only_micro.
+Print Assumptions C26_deploy_undeploy_micro.
+Print Assumptions C26_lazy_micro.
+Print Assumptions C26_lazy_fail_wakes_micro.
 
 (* --- fail_wakes is false of the current code: d1 wraps d0, d0's deploy fails; the second deploy(d1) is
    blocked for ever (no task is ready, task 1 is not done) *)
